@@ -118,4 +118,8 @@ class State:
     def assume(self, f):
         if z3.is_true(f):
             return
+        if z3.is_and(f):
+            for c in f.children():
+                self.assume(c)
+            return
         self.pc.append(f)
